@@ -215,10 +215,20 @@ class C16Objects:
         master = rbip32.RefHDNode.from_seed(rhashes.sha256(b'c16 wallet %d ' % i + tag))
         wt = ch.pick('wt', ['segwit', 'p2sh-segwit', 'legacy'])
         purpose = {'legacy': 44, 'p2sh-segwit': 49, 'segwit': 84}[wt]
-        from_what = ch.weighted('wallet_from', [('master', 5), ('account_private', 3), ('multisig', 3)])
+        from_what = ch.weighted('wallet_from', [('master', 5), ('account_private', 3), ('multisig', 3), ('single', 2)])
         self.reg.add_node(master, 'w.m')
         if from_what == 'multisig':
             return self.make_multisig_wallet(master, wt)
+        if from_what == 'single':
+            # a wallet on one private key (scheme 'single'): its public master key is that key's public side
+            priv = master.priv
+            db = os.path.join(self.w.scratch, 'w.sqlite')
+            wif = rcodec.wif_encode(priv, True, rcodec.NETWORKS[self.network]['wif'])
+            w = BW.Wallet.create('c16w', keys=wif, network=self.network, witness_type=wt, scheme='single', db_uri=db,
+                                 db_cache_uri=os.path.join(self.w.scratch, 'cache.sqlite'))
+            self.wallet = {'w': w, 'wt': wt, 'db': db, 'master': master, 'acc': 'm'}
+            self.subjects.append({'kind': 'Wallet', 'obj': w, 'label': 'wallet', 'wt': wt, 'single': True})
+            return
         acc = 'm'
         for part in ("%d'" % purpose, "%d'" % self.coin, "0'"):
             acc += '/' + part
@@ -574,7 +584,8 @@ class C16Objects:
                                                           lambda: wl.transactions(as_dict=True, include_new=True)),
                                    ('addresslist()', wl.addresslist), ('accounts()', wl.accounts)], primed)
         # watch-only wallet created from the export
-        if not s.get('multisig') and self.ch.coin('watch', 0.4) and not getattr(self, 'watch_done', False):
+        if not s.get('multisig') and not s.get('single') and self.ch.coin('watch', 0.4) and \
+                not getattr(self, 'watch_done', False):
             self.watch_done = True
             wo = BW.Wallet.create('c16watch', keys=pm.wif, network=self.network, witness_type=s['wt'],
                                   db_uri=os.path.join(self.w.scratch, 'watch.sqlite'),
